@@ -17,6 +17,10 @@ func main() {
 		cmdCore()
 	case "xgen":
 		cmdXgen()
+	case "pack":
+		cmdPack()
+	case "resolve":
+		cmdResolve()
 	default:
 		fmt.Fprintln(os.Stderr, "unknown command", os.Args[1])
 		os.Exit(2)
